@@ -46,6 +46,23 @@ impl RunResult {
 
 /// Body of the forked child.
 fn child_main(spec: &RunSpec, replay: Option<(Vec<u32>, Vec<u32>)>) -> ! {
+    if std::env::var("VSIM_HANG_GDB").is_ok() {
+        // debugging aid (ptrace is not available in this sandbox): after 4 s of CPU time the
+        // thread that is burning it dumps its own backtrace
+        extern "C" fn prof(_s: i32) {
+            let _g = sim::ShimGuard::new();
+            let bt = std::backtrace::Backtrace::force_capture();
+            let _ = std::fs::write(format!("/tmp/hang-bt-{}.txt", unsafe { libc::getpid() }), format!("tid {} sim-tid {}\n{}", unsafe { libc::syscall(libc::SYS_gettid) }, sim::tid() as i64, bt));
+        }
+        unsafe {
+            libc::signal(libc::SIGPROF, prof as usize);
+            let it = libc::itimerval { it_interval: libc::timeval { tv_sec: 0, tv_usec: 0 }, it_value: libc::timeval { tv_sec: 4, tv_usec: 0 } };
+            extern "C" {
+                fn setitimer(which: libc::c_int, new: *const libc::itimerval, old: *mut libc::itimerval) -> libc::c_int;
+            }
+            setitimer(2, &it, std::ptr::null_mut()); // ITIMER_PROF
+        }
+    }
     sighook_shim::alloc::QUARANTINE.store(true, std::sync::atomic::Ordering::SeqCst);
     sim::install_panic_hook(std::env::var("VSIM_LOUD").is_err());
     let mode = match replay {
@@ -76,6 +93,10 @@ fn child_main(spec: &RunSpec, replay: Option<(Vec<u32>, Vec<u32>)>) -> ! {
     }
     // C12's "every registration it made has been removed" also under two handles adding the same
     // signal concurrently and with close()/deliveries around: a quarter of its runs use itersim
+    // "dropping the object that owns it" (C01) with two handles adding one signal concurrently
+    if spec.prop.id == "C01" && spec.run % 8 == 7 {
+        crate::itersim::run(spec);
+    }
     if spec.prop.id == "C12" && spec.run % 4 == 3 {
         crate::itersim::run(spec);
     }
@@ -87,36 +108,108 @@ fn child_main(spec: &RunSpec, replay: Option<(Vec<u32>, Vec<u32>)>) -> ! {
     }
 }
 
-const WATCHDOG_MS: i32 = 10_000;
+/// Total CPU ticks (utime + stime, all threads) of a process.
+fn cpu_ticks(pid: i32) -> Option<u64> {
+    let st = std::fs::read_to_string(format!("/proc/{}/stat", pid)).ok()?;
+    let rest = &st[st.rfind(')')? + 2..];
+    let f: Vec<&str> = rest.split_whitespace().collect();
+    Some(f.get(11)?.parse::<u64>().ok()? + f.get(12)?.parse::<u64>().ok()?)
+}
+
+/// Did the process consume CPU during the last 400 ms?  A genuinely hung simulated process
+/// (blocked in write/send/read, or every thread parked) does not.
+fn cpu_progress(pid: i32) -> bool {
+    let a = cpu_ticks(pid);
+    std::thread::sleep(std::time::Duration::from_millis(400));
+    let b = cpu_ticks(pid);
+    match (a, b) {
+        (Some(a), Some(b)) => b > a,
+        _ => false,
+    }
+}
+
+fn block_sigchld() {
+    unsafe {
+        let mut set: libc::sigset_t = std::mem::zeroed();
+        libc::sigemptyset(&mut set);
+        libc::sigaddset(&mut set, libc::SIGCHLD);
+        libc::sigprocmask(libc::SIG_BLOCK, &set, std::ptr::null_mut());
+    }
+}
+
+const WATCHDOG_MS: i32 = 30_000;
 /// C13's only legitimate long wait is a wake that blocks; its correct runs take milliseconds
-const WATCHDOG_C13_MS: i32 = 3_000;
+const WATCHDOG_C13_MS: i32 = 6_000;
 
 /// Fork one simulated process, wait for it, classify the outcome.
 pub fn run_one(spec: &RunSpec, replay: Option<(Vec<u32>, Vec<u32>)>) -> RunResult {
     shm::reset();
     let _ = std::io::stdout().flush();
+    block_sigchld();
     let pid = unsafe { libc::fork() };
     if pid < 0 {
         eprintln!("fork failed");
         std::process::exit(2);
     }
     if pid == 0 {
+        // the simulated process starts with an empty signal mask and default dispositions,
+        // whatever the environment that launched the check had blocked or ignored
+        unsafe {
+            let mut set: libc::sigset_t = std::mem::zeroed();
+            libc::sigemptyset(&mut set);
+            libc::sigprocmask(libc::SIG_SETMASK, &set, std::ptr::null_mut());
+            for s in 1..=64 {
+                if s == libc::SIGKILL || s == libc::SIGSTOP || s == 32 || s == 33 {
+                    continue;
+                }
+                let mut sa: libc::sigaction = std::mem::zeroed();
+                sa.sa_sigaction = libc::SIG_DFL;
+                libc::sigaction(s, &sa, std::ptr::null_mut());
+            }
+        }
         child_main(spec, replay);
     }
     let mut status: i32 = 0;
     let mut timed_out = false;
+    // Wait for the child with SIGCHLD (blocked in this process, fetched with sigtimedwait): a pidfd
+    // poll misses the exit of a multi-threaded child whose leader dies first on some kernels, which
+    // cost a full watchdog period per miss.
     unsafe {
-        let pidfd = libc::syscall(libc::SYS_pidfd_open, pid, 0) as i32;
-        if pidfd >= 0 {
-            let mut p = libc::pollfd { fd: pidfd, events: libc::POLLIN, revents: 0 };
-            let r = libc::poll(&mut p, 1, if spec.prop.id == "C13" { WATCHDOG_C13_MS } else { WATCHDOG_MS });
-            if r == 0 {
-                timed_out = true;
-                libc::kill(pid, libc::SIGKILL);
+        let limit_ms = if spec.prop.id == "C13" { WATCHDOG_C13_MS } else { WATCHDOG_MS } as u128;
+        let mut t0 = Instant::now();
+        let mut extensions = 0;
+        let mut set: libc::sigset_t = std::mem::zeroed();
+        libc::sigemptyset(&mut set);
+        libc::sigaddset(&mut set, libc::SIGCHLD);
+        loop {
+            let r = libc::waitpid(pid, &mut status, libc::WNOHANG);
+            if r == pid {
+                break;
             }
-            libc::close(pidfd);
+            let el = t0.elapsed().as_millis();
+            if el >= limit_ms && extensions < 8 && cpu_progress(pid) {
+                // slow (a loaded machine), not hung: the child is still burning CPU
+                extensions += 1;
+                t0 = Instant::now();
+                continue;
+            }
+            if el >= limit_ms {
+                timed_out = true;
+                if std::env::var("VSIM_HANG_GDB").is_ok() {
+                    // debugging aid: dump the state of a hung simulated process before killing it
+                    let _ = std::process::Command::new("sh")
+                        .arg("-c")
+                        .arg(format!("(grep -E 'State|Threads' /proc/{0}/status; for t in /proc/{0}/task/*; do echo $t; cat $t/wchan; echo; grep State $t/status; done; gdb -p {0} -batch -ex 'thread apply all bt 14') > /tmp/hang-{0}.txt 2>&1", pid))
+                        .status();
+                }
+                libc::kill(pid, libc::SIGKILL);
+                libc::waitpid(pid, &mut status, 0);
+                break;
+            }
+            let rem = (limit_ms - el).min(500);
+            let ts = libc::timespec { tv_sec: (rem / 1000) as libc::time_t, tv_nsec: ((rem % 1000) * 1_000_000) as libc::c_long };
+            libc::sigtimedwait(&set, std::ptr::null_mut(), &ts);
         }
-        libc::waitpid(pid, &mut status, 0);
     }
     let mut r = classify(shm::get(), status, timed_out);
     // a violation of another property than the one being checked is not this check's to report
@@ -161,7 +254,9 @@ fn classify(sh: &Shm, status: i32, timed_out: bool) -> RunResult {
         if !hp.is_empty() {
             return mk(viol(hp, "hang", format!("the simulated process hung (watchdog) at progress marker {}", sh.progress)));
         }
-        return mk(Verdict::Harness(format!("watchdog: child hung at progress {}", sh.progress)));
+        let ev = sh.events();
+        let tail: Vec<String> = ev.iter().rev().take(14).rev().map(|e| format!("{}:T{}d{} k{} {:x}/{:x}", e.step, e.tid, e.depth, e.kind, e.a, e.b)).collect();
+        return mk(Verdict::Harness(format!("watchdog: child hung at progress {}; note: {}; last events: {}", sh.progress, sh.note_str().chars().take(400).collect::<String>(), tail.join(" | "))));
     }
     if sh.expect_set == 2 {
         // the engine declared: the process must not terminate here
